@@ -608,6 +608,13 @@ func init() {
 		e.c09DetailDef(s, srv, "validateSecret", "validateSecretStmts")
 		e.c09Calls(s, srv, "WithJwt", "withJwtCalls")
 		e.c09Calls(s, srv, "WithJwtTransition", "withJwtTransitionCalls")
+		// round 5: WithCors (as implemented: the CORS middleware in front of the patRouter answers every OPTIONS request)
+		const corsf = "rest/internal/cors/handlers.go"
+		e.c09DetailDef(s, srv, "WithCors", "withCorsStmts")
+		e.c09DetailDef(s, srv, "newCorsRouter", "newCorsRouterStmts")
+		e.c09DetailDef(s, srv, "corsRouter.ServeHTTP", "corsRouterServeStmts")
+		e.c09Cond(s, corsf, "Middleware", "condCorsPreflight", c09If(1), []c09Param{{"r.Method", "method", "str"}})
+		e.c09Cond(s, corsf, "NotAllowedHandler", "condCorsNAOptions", c09If(1), []c09Param{{"r.Method", "method", "str"}})
 		// round 5: what the constructed values are fed from
 		e.c09Fields(s, srv, "WithPrefix", "Route", "withPrefixRouteFields")
 		e.c09Calls(s, srv, "WithPrefix", "withPrefixCalls")
